@@ -20,6 +20,65 @@ use std::panic::{catch_unwind, AssertUnwindSafe};
 use std::pin::Pin;
 use std::task::{Context, Poll, RawWaker, RawWakerVTable, Waker};
 
+/// a hasher in which every entry point of the trait is overridden and distinguishable from every other
+#[derive(Default, Clone)]
+pub struct RecHasher {
+    acc: u64,
+}
+impl RecHasher {
+    fn mix(&mut self, tag: u8, bytes: &[u8]) {
+        self.acc = (self.acc ^ tag as u64).wrapping_mul(0x100_0000_01b3).rotate_left(7);
+        for b in bytes {
+            self.acc = (self.acc ^ *b as u64).wrapping_mul(0x100_0000_01b3);
+        }
+        self.acc ^= bytes.len() as u64;
+    }
+}
+impl Hasher for RecHasher {
+    fn finish(&self) -> u64 {
+        self.acc
+    }
+    fn write(&mut self, bytes: &[u8]) {
+        self.mix(1, bytes)
+    }
+    fn write_u8(&mut self, i: u8) {
+        self.mix(2, &i.to_le_bytes())
+    }
+    fn write_u16(&mut self, i: u16) {
+        self.mix(3, &i.to_le_bytes())
+    }
+    fn write_u32(&mut self, i: u32) {
+        self.mix(4, &i.to_le_bytes())
+    }
+    fn write_u64(&mut self, i: u64) {
+        self.mix(5, &i.to_le_bytes())
+    }
+    fn write_u128(&mut self, i: u128) {
+        self.mix(6, &i.to_le_bytes())
+    }
+    fn write_usize(&mut self, i: usize) {
+        self.mix(7, &i.to_le_bytes())
+    }
+    fn write_i8(&mut self, i: i8) {
+        self.mix(8, &i.to_le_bytes())
+    }
+    fn write_i16(&mut self, i: i16) {
+        self.mix(9, &i.to_le_bytes())
+    }
+    fn write_i32(&mut self, i: i32) {
+        self.mix(10, &i.to_le_bytes())
+    }
+    fn write_i64(&mut self, i: i64) {
+        self.mix(11, &i.to_le_bytes())
+    }
+    fn write_i128(&mut self, i: i128) {
+        self.mix(12, &i.to_le_bytes())
+    }
+    fn write_isize(&mut self, i: isize) {
+        self.mix(13, &i.to_le_bytes())
+    }
+}
+
 pub const NKINDS: u8 = 12;
 pub const KIND_NAMES: [&str; NKINDS as usize] = [
     "ownership chain (Box<El>)", "array <-> slice conversions", "Vec -> boxed slice", "dyn Any downcast", "Display/Debug/Pointer forwarding",
@@ -35,8 +94,12 @@ struct Ctx {
 }
 impl Ctx {
     fn v(&mut self, m: String) {
+        // scenarios run in arena mode: the message must not live in (and later be freed from) a block the ledger attributes to the arena
+        let _u = ledger::enter_user();
+        let m2 = String::from(m.as_str());
+        drop(m);
         if self.viol.len() < 8 {
-            self.viol.push(m);
+            self.viol.push(m2);
         }
     }
     /// drop ledgers of both sides must agree since the last call
@@ -605,6 +668,47 @@ pub fn run_box_case(bytes: &[u8]) -> (Vec<String>, bool, Vec<u32>) {
                 }
                 if s.finish() != t.finish() {
                     cx.v("Box<DefaultHasher> produces a different hash from the hasher itself".into());
+                }
+                // a hasher that overrides every entry point differently: each call must reach the entry point of the same name
+                let mut rs: BBox<RecHasher> = BBox::new_in(RecHasher::default(), b);
+                let mut rd: BBox<dyn Hasher> = unsafe { BBox::from_raw(b.alloc(RecHasher::default()) as &mut dyn Hasher as *mut dyn Hasher) };
+                let mut rt = RecHasher::default();
+                for j in 0..(2 + g(10) % 14) as usize {
+                    let x = g(11 + j);
+                    let w = (x as u64).wrapping_mul(0x9e37_79b9_7f4a_7c15) ^ ((g(12 + j) as u64) << 56);
+                    let which = x % 20;
+                    fn drive<H: Hasher>(h: &mut H, which: u8, w: u64) {
+                        match which {
+                            0 => h.write(&w.to_le_bytes()[..(w % 9) as usize]),
+                            1 => h.write_u8(w as u8),
+                            2 => h.write_u16(w as u16),
+                            3 => h.write_u32(w as u32),
+                            4 => h.write_u64(w),
+                            5 => h.write_u128((w as u128) << 64 | !w as u128),
+                            6 => h.write_usize(w as usize),
+                            7 => h.write_i8(w as i8),
+                            8 => h.write_i16(w as i16),
+                            9 => h.write_i32(w as i32),
+                            10 => h.write_i64(w as i64),
+                            11 => h.write_i128(-((w as i128) << 3)),
+                            12 => h.write_isize(w as isize),
+                            // through the Hash impls of values, as collections do
+                            13 => (w as isize).hash(h),
+                            14 => (-(w as i64 >> 1) as isize, w as usize).hash(h),
+                            15 => (w as i128, w as u8, w as i16).hash(h),
+                            16 => [w as isize, -1, 0].hash(h),
+                            17 => "text".hash(h),
+                            18 => Some(w as i32).hash(h),
+                            _ => (w as u16, 'x', true).hash(h),
+                        }
+                    }
+                    drive(&mut rs, which, w);
+                    drive(&mut rd, which, w);
+                    drive(&mut rt, which, w);
+                    if rs.finish() != rt.finish() || rd.finish() != rt.finish() {
+                        cx.v(format!("a boxed hasher does not hash as the hasher it owns: after call kind {which} (0 write, 1-6 unsigned, 7-12 signed, 13+ through Hash impls) Box<H> reports {:#x}, Box<dyn Hasher> {:#x}, the hasher itself {:#x}", rs.finish(), rd.finish(), rt.finish()));
+                        break;
+                    }
                 }
             }
             7 => {
